@@ -15,6 +15,8 @@ pub type Raw = (u64, bool, bool);
 pub struct RefModel {
     pub expected: u64,
     covered: BTreeMap<u64, bool>,
+    /// tag u64::MAX has been emitted
+    exhausted: bool,
 }
 
 impl RefModel {
@@ -22,11 +24,12 @@ impl RefModel {
         RefModel {
             expected,
             covered: BTreeMap::new(),
+            exhausted: false,
         }
     }
     /// Returns the (tag, ack) pairs that become emittable with this input.
     pub fn process(&mut self, (tag, multiple, ack): Raw) -> Vec<(u64, bool)> {
-        if tag >= self.expected {
+        if tag >= self.expected && !self.exhausted {
             if multiple {
                 let mut t = self.expected;
                 loop {
@@ -41,9 +44,18 @@ impl RefModel {
             }
         }
         let mut out = Vec::new();
-        while let Some(a) = self.covered.remove(&self.expected) {
-            out.push((self.expected, a));
-            self.expected += 1;
+        while !self.exhausted {
+            match self.covered.remove(&self.expected) {
+                Some(a) => {
+                    out.push((self.expected, a));
+                    match self.expected.checked_add(1) {
+                        Some(n) => self.expected = n,
+                        // u64::MAX has been emitted: there is no later tag
+                        None => self.exhausted = true,
+                    }
+                }
+                None => break,
+            }
         }
         out
     }
@@ -169,7 +181,8 @@ pub fn run(rc: &mut RunCtx) {
     //     all drop patterns in {full, take 0, take 1} for <= 3 tags, random for more
     let maxn = if rc.miri() { 3 } else if rc.quick() { 4 } else { 5 };
     for n in 1..=maxn {
-        for (si, start) in [1u64, 2, 1000, u64::MAX - 16].iter().enumerate() {
+        // the last start makes the last tag of the history u64::MAX itself
+        for (si, start) in [1u64, 2, 1000, u64::MAX - 16, u64::MAX - n as u64 + 1].iter().enumerate() {
             if rc.miri() && (si == 1 || si == 2) {
                 continue;
             }
